@@ -46,6 +46,26 @@ var c18Apps = []c18App{
 	{name: "add-right", class: "", model: true, kinds: "l", build: func(g *G, x *E) []*S { return r1(Bin(x, "+", g.L(I(9)))) }},
 	{name: "add-left", class: "", model: true, kinds: "l", build: func(g *G, x *E) []*S { return r1(Bin(g.L(I(9)), "+", x)) }},
 	{name: "add-self", class: "", model: true, kinds: "ls", build: func(g *G, x *E) []*S { return r1(Bin(x, "+", x)) }},
+	// two values derived from one intermediate sum, then a look at the first: spare capacity behind the sum would let
+	// the second derivation overwrite the first.  A plain left operand longer than X (4..9 against 2..4 elements).
+	{name: "add-left-two-derived", class: "", model: true, kinds: "ls", build: func(g *G, x *E) []*S {
+		return []*S{Asg("x", Bin(g.ints(4+g.r.Intn(6)), "+", x)), Asg("y", Bin(Nm("x"), "+", g.L(I(101)))), Asg("z", Bin(Nm("x"), "+", g.L(I(202)))), Asg("r", Nm("y"))}
+	}},
+	{name: "augadd-two-derived", class: "", model: true, kinds: "ls", build: func(g *G, x *E) []*S {
+		return []*S{Asg("x", g.ints(4 + g.r.Intn(6))), Aug("x", x), Asg("y", Bin(Nm("x"), "+", g.L(I(101)))), Asg("z", Bin(Nm("x"), "+", g.L(I(202)))), Asg("r", Nm("y"))}
+	}},
+	{name: "add-left-mul-two-derived", class: "", model: true, kinds: "ls", build: func(g *G, x *E) []*S {
+		return []*S{Asg("x", Bin(g.ints(4+g.r.Intn(6)), "+", x)), Asg("w", Bin(Nm("x"), "*", I(2))), Asg("y", Bin(Nm("x"), "+", g.L(I(101), I(102)))), Asg("z", Bin(Nm("x"), "+", g.L(I(202)))), Asg("r", Nm("y"))}
+	}},
+	{name: "add-left-aug-derived", class: "", model: true, kinds: "ls", build: func(g *G, x *E) []*S {
+		return []*S{Asg("x", Bin(g.ints(4+g.r.Intn(6)), "+", x)), Asg("y", Nm("x")), Aug("y", g.L(I(101))), Asg("z", Bin(Nm("x"), "+", g.L(I(202)))), Asg("r", Nm("y"))}
+	}},
+	{name: "add-left-short-two-derived", class: "", model: true, kinds: "ls", build: func(g *G, x *E) []*S {
+		return []*S{Asg("x", Bin(g.ints(1+g.r.Intn(3)), "+", x)), Asg("y", Bin(Nm("x"), "+", g.L(I(101)))), Asg("z", Bin(Nm("x"), "+", g.L(I(202)))), Asg("r", Nm("y"))}
+	}},
+	{name: "add-right-two-derived", class: "", model: true, kinds: "ls", build: func(g *G, x *E) []*S {
+		return []*S{Asg("x", Bin(x, "+", g.ints(4+g.r.Intn(6)))), Asg("y", Bin(Nm("x"), "+", g.L(I(101)))), Asg("z", Bin(Nm("x"), "+", g.L(I(202)))), Asg("r", Nm("y"))}
+	}},
 	{name: "sorted", class: clsBuiltin, model: true, kinds: "ls", build: func(g *G, x *E) []*S { return r1(Call("sorted", x)) }},
 	{name: "sorted-reverse", class: clsBuiltin, model: true, kinds: "ls", build: func(g *G, x *E) []*S {
 		return r1(CallKw("sorted", []*E{x, Tr()}, []string{"", "reverse"}))
